@@ -12,8 +12,9 @@
   domain; what is left are texts with a backslash before a non-punctuation character.
 -/
 import Mistletoe.Proofs.InertInline2
+import Mistletoe.Proofs.InertInline3
 namespace Mistletoe.Props.C14W
-open Mistletoe Mistletoe.Py Mistletoe.Scan Mistletoe.Block Mistletoe.Inline Mistletoe.InertInline Mistletoe.InertInline2
+open Mistletoe Mistletoe.Py Mistletoe.Scan Mistletoe.Block Mistletoe.Inline Mistletoe.InertInline Mistletoe.InertInline2 Mistletoe.InertInline3
 open Mistletoe.Html Mistletoe.Escape
 open Mistletoe.Props.C14 (inertLine)
 
@@ -31,6 +32,24 @@ theorem C14_prose_text3 (cfg : Document.Cfg) (hpar : .paragraph ∈ cfg.block.ty
     ∀ o : Opts, render o { kids := [.paragraph (proseInlines (ls.map strip)) 1], footnotes := [] } =
         "<p>".toList ++ escapeHtmlText o.dq o.sq (Document.joinNl (ls.map strip)) ++ "</p>\n".toList :=
   Mistletoe.Props.C14.C14_prose_text3 cfg hpar ht hc ls hne h1 hl hi gas
+
+/-- **End to end under `inertBody4`** (Proofs/InertInline3.lean): as `C14_prose_text3`, and a backslash is allowed when the
+    next character exists, is not ASCII punctuation and is not a newline (`C:\dir`, `a \ b`: a literal backslash in
+    CommonMark - no escape, no hard break). -/
+theorem C14_prose_text4 (cfg : Document.Cfg) (hpar : .paragraph ∈ cfg.block.types)
+    (ht : ∀ t ∈ cfg.span, inertClass t = true) (hc : cfg.span.count .lineBreak = 1)
+    (ls : List Str) (hne : ls ≠ []) (h1 : ∀ l ∈ ls, oneLine l = true)
+    (hl : ∀ l ∈ ls, inertLine l = true ∧ proseLine l = true)
+    (hi : inertBody4 (Document.joinNl (ls.map strip)) = true) (gas : Nat) :
+    Document.parse cfg (gas + (cfg.block.types.length + 4)) ls.flatten =
+        .ok { kids := [.paragraph (proseInlines (ls.map strip)) 1], footnotes := [] } ∧
+    ∀ o : Opts, render o { kids := [.paragraph (proseInlines (ls.map strip)) 1], footnotes := [] } =
+        "<p>".toList ++ escapeHtmlText o.dq o.sq (Document.joinNl (ls.map strip)) ++ "</p>\n".toList :=
+  Mistletoe.Props.C14.C14_prose_text4 cfg hpar ht hc ls hne h1 hl hi gas
+
+/-- `inertBody3` implies `inertBody4` -/
+theorem C14_conditions_nested4 (s : Str) (h : inertBody3 s = true) : inertBody4 s = true :=
+  Mistletoe.Props.C14.C14_inertBody4_weaker s h
 
 /-- the same under `inertBody2` (any table of definitions at the inline level: `C14_core_inert2`) -/
 theorem C14_prose_text2 (cfg : Document.Cfg) (hpar : .paragraph ∈ cfg.block.types)
